@@ -21,6 +21,11 @@ CH = 'adsg_core/graph/choices.py:'
 CC = 'adsg_core/graph/choice_constraints.py:'
 
 CASES = [
+    (CC + 'get_constraint_pre_removed_options', 'break', "n_opt_max = max([len(options) for options in choice_constraint.options])", "n_opt_max = min([len(options) for options in choice_constraint.options])"),
+    (CC + 'get_constraint_pre_removed_options', 'break', "        if n_dec > n_opt_max:\n            return [", "        if n_dec >= n_opt_max:\n            return ["),
+    (CC + 'get_constraint_pre_removed_options', 'break', "                               if i_opt < i_start or i_opt >= i_end]", "                               if i_opt <= i_start or i_opt >= i_end]"),
+    (CC + 'get_constraint_pre_removed_options', 'break', "            i_end = len(choice_constraint.options[i_dec]) - n_dec_after", "            i_end = len(choice_constraint.options[i_dec]) - n_dec_after - 1"),
+    (CC + 'get_constraint_pre_removed_options', 'keep', "            i_start = i_dec\n            n_dec_after = n_dec-(i_dec+1)", "            n_dec_after = n_dec-(i_dec+1)\n            i_start = i_dec"),
     (GP + 'GraphProcessor._get_des_vars@connection-choices', 'break', "                existence_infeasibility_mask[exist_map == -1] = False", "                existence_infeasibility_mask = exist_map != -1"),
     (GP + 'GraphProcessor._get_des_vars@connection-choices', 'break', "            i_dv_start = len(des_vars)\n\n            for conn_des_var in conn_des_vars:", "            i_dv_start = len(des_vars) + 1\n\n            for conn_des_var in conn_des_vars:"),
     (GP + 'GraphProcessor._get_des_vars@connection-choices', 'break', "            des_vars += conn_des_vars\n            i_dv_end = len(des_vars)", "            i_dv_end = len(des_vars)\n            des_vars += conn_des_vars"),
